@@ -58,6 +58,9 @@ func cmdVerify(args []string) {
 	sort.Strings(keys)
 	var all []*Oblig
 	for _, k := range keys {
+		if eng.fnByKey[k].Parent() != nil && eng.contracts.Funcs[k] == nil {
+			continue // closures without a contract are verified where they are expanded
+		}
 		res := eng.VerifyFunc(eng.fnByKey[k], VerifyOpts{FrameFresh: *frame})
 		if res.Unsupported != "" {
 			fmt.Printf("%-60s UNSUPPORTED %s\n", k, res.Unsupported)
